@@ -3,7 +3,7 @@ import BearVerif.Core.BearExpr
 /-!
   Line-protocol driver of the Bear core (C01 C02 C03 C09 C10 C12 C18):
     (gen ISRANDOM HINT)                 -> the generated expression
-    (run WORLD ISRANDOM R HINT OBJ)     -> (sat chk evalresult cost)
+    (run WORLD ISRANDOM (R…) HINT OBJ)  -> (sat (chk evalresult)…)   one pair per draw
   WORLD = (N (sub rows as 0/1 strings) sized indexable reiter mapping) sent by the harness
   from the running interpreter (`issubclass` on the real classes).
 -/
@@ -102,7 +102,7 @@ def predTable (f : Nat) (x : Obj) : Bool :=
   | 0 => true
   | 1 => false
   | 2 => (match x.atom with | .int i => i > 0 | .bool b => b | _ => false)   -- isinstance(x, int) and x > 0
-  | 3 => !x.items.isEmpty                                                    -- hasattr(x, '__len__') and len(x) > 0
+  | 3 => !x.items.isEmpty                                                    -- isinstance(x, Collection) and len(x) > 0
   | 4 => (match x.atom with | .str s => s.length ≥ 2 | _ => false)           -- isinstance(x, str) and len(x) >= 2
   | _ => false
 
@@ -123,18 +123,20 @@ def handle : Sexp → Option Sexp
   | .list [.atom "gen", .atom rnd, h] => do
     let h ← hintOf h
     pure (exprStr (genRoot { isRandom := rnd == "true" } h))
-  | .list [.atom "run", w, .atom rnd, r, h, x] => do
+  | .list [.atom "run", w, .atom rnd, rs, h, x] => do
     let W ← worldOf w
     let h ← hintOf h
     let x ← objOf x
-    let r ← r.nat?
+    let rs ← natsOf rs
     let conf : Conf := { isRandom := rnd == "true" }
-    let ev := eval W r (fun v => if v = pv 0 then some x else none) (genRoot conf h)
-    let evs : Sexp := match ev with
-      | some (.bool b, _, n) => .list [boolStr b, .atom (toString n)]
-      | some _ => .atom "nonbool"
-      | none => .atom "raises"
-    pure (.list [boolStr (sat W h x), boolStr (chk W conf r h x), evs])
+    let one (r : Nat) : Sexp :=
+      let ev := eval W r (fun v => if v = pv 0 then some x else none) (genRoot conf h)
+      let evs : Sexp := match ev with
+        | some (.bool b, _, n) => .list [boolStr b, .atom (toString n)]
+        | some _ => .atom "nonbool"
+        | none => .atom "raises"
+      .list [boolStr (chk W conf r h x), evs]
+    pure (.list (boolStr (sat W h x) :: rs.map one))
   | _ => none
 
 end BearVerif.Bear
